@@ -44,6 +44,7 @@ type hsWorld struct {
 	lines    []map[string]any
 	retries  int
 	sendNo   int
+	gates    map[string]*vLogGateState // per node: parks a goroutine of the node at one of its log calls
 }
 
 func hsUDP(last byte) netip.AddrPort {
@@ -137,6 +138,10 @@ func hsNewWorld(t testing.TB, retries int) *hsWorld {
 		if err := nd.Cfg.ReloadConfigString(string(raw)); err != nil {
 			t.Fatalf("verif: reload: %v", err)
 		}
+	}
+	w.gates = map[string]*vLogGateState{}
+	for _, nd := range w.sorted() {
+		w.gates[nd.Name] = nd.InstallLogGate()
 	}
 	return w
 }
@@ -305,7 +310,55 @@ func (w *hsWorld) deliverLate(d *vDatagram, nd *vNode, via netip.AddrPort, to ne
 
 // tickOnce advances one try interval; every pending handshake whose attempt counter moved (or that
 // vanished without becoming a tunnel) is logged as a Retry of that node/address.
-func (w *hsWorld) tickOnce() {
+func (w *hsWorld) tickOnce() { w.tickWith(func() { w.Advance(hsTick) }) }
+
+// garbledReplyRacesTick: a copy of stage-2 datagram d whose AEAD tag is altered reaches nd (a recoverable failure: the
+// pending handshake stays as it is), and the goroutine that handles it is parked at its log call inside continueHandshake,
+// i.e. while it holds the lock of that pending handshake.  The handshake manager's next timer tick then happens while the
+// lock is held: its retransmission has to wait for the lock, not to be skipped.  (Parks only in worlds that log at debug
+// level; otherwise the copy is simply refused and the tick is an ordinary one.)
+func (w *hsWorld) garbledReplyRacesTick(nd *vNode, d *vDatagram, res *vResult) {
+	g := w.gates[nd.Name]
+	bad := *d
+	bad.Data = append([]byte(nil), d.Data...)
+	bad.Data[len(bad.Data)-1] ^= 0x01
+	// (the node's state is sampled by tickWith before anything is parked: sampling takes the handshake's lock)
+	w.tickWith(func() {
+		g.Arm("Failed to process handshake packet")
+		w.DeliverTo(&bad, nd.UDP, d.From)
+		if !g.Parked() {
+			g.Disarm()
+			ev := map[string]any{"ev": "Garbled", "n": nd.Name}
+			w.post(nd, ev)
+			w.log(ev)
+			w.Advance(hsTick)
+			return
+		}
+		res.Hit("garbled-reply:parked-under-handshake-lock")
+		w.log(map[string]any{"ev": "Garbled", "n": nd.Name, "racing": true})
+		time.Sleep(hsTick) // the manager's ticker fires at this very instant
+		vRealPause(3 * time.Millisecond)
+		g.Release()
+		synctest.Wait()
+	})
+}
+
+// drain: nothing is delivered any more and nothing new is sent; every handshake that is still pending runs through its
+// remaining attempts and is abandoned.  The Quiet line states how many are pending afterwards.
+func (w *hsWorld) drain() {
+	for k := 0; k < w.retries*(w.retries+1)/2+w.retries+3; k++ {
+		w.tickOnce()
+	}
+	n := 0
+	for _, nd := range w.sorted() {
+		n += w.pendingCount(nd)
+	}
+	w.log(map[string]any{"ev": "Quiet", "pending": n})
+}
+
+// tickWith: one try interval passes (advance does it); every pending handshake whose attempt counter moved (or that
+// vanished without becoming a tunnel) is logged as a Retry of that node/address.
+func (w *hsWorld) tickWith(advance func()) {
 	type key struct{ n, a string }
 	before := map[key]nebula.VerifPending{}
 	for _, nd := range w.sorted() {
@@ -313,7 +366,7 @@ func (w *hsWorld) tickOnce() {
 			before[key{nd.Name, p.VpnAddr}] = p
 		}
 	}
-	w.Advance(hsTick)
+	advance()
 	w.log(map[string]any{"ev": "Tick"})
 	for _, nd := range w.sorted() {
 		after := map[string]nebula.VerifPending{}
@@ -385,6 +438,7 @@ func TestVerif_HsTrace(t *testing.T) {
 			w.t0 = time.Now()
 			w.Start()
 			hsDrive(w, rnd, steps, tr, res)
+			w.drain()
 			w.Stop()
 			lines = w.lines
 		})
@@ -504,6 +558,37 @@ func hsDrive(w *hsWorld, rnd *rand.Rand, steps, tr int, res *vResult) {
 			if hs2 := take(A, header.Handshake, 2); hs2 != nil {
 				w.deliverLate(hs2, A, hs2.From, addr("10.128.0.2"), 1+rnd.Intn(3))
 				res.Hit("flush-interleave-prologue")
+			}
+		}
+	}
+	if profile == 3 && (tr/4)%2 == 0 {
+		// an unauthentic copy of the answer is being handled when the retransmission timer of the same handshake fires
+		w.tunSend(A, addr("10.128.0.2"), "gr-0")
+		var hs1, hs2 *vDatagram
+		for k, d := range w.inflight {
+			if d.To == B.UDP && d.H.Type == header.Handshake && d.H.MessageCounter == 1 {
+				hs1 = d
+				w.inflight = append(w.inflight[:k], w.inflight[k+1:]...)
+				break
+			}
+		}
+		if hs1 != nil {
+			w.deliver(hs1, B, hs1.From)
+			for k, d := range w.inflight {
+				if d.To == A.UDP && d.H.Type == header.Handshake && d.H.MessageCounter == 2 {
+					hs2 = d
+					w.inflight = append(w.inflight[:k], w.inflight[k+1:]...)
+					break
+				}
+			}
+		}
+		if hs2 != nil {
+			for k := 0; k < 4 && w.pendingCount(A) > 0; k++ {
+				w.garbledReplyRacesTick(A, hs2, res)
+			}
+			res.Hit("garbled-reply-prologue")
+			if rnd.Intn(2) == 0 {
+				w.deliver(hs2, A, hs2.From) // the genuine answer still completes the handshake
 			}
 		}
 	}
